@@ -179,3 +179,41 @@ pub fn structured_patterns(f: FloatFmt, dense: bool) -> Vec<u64> {
     }
     out
 }
+
+/// fast path of `float_to_int` for f64 and targets of at most 128 bits: (negative, magnitude)
+pub fn f64_to_int_fast(bits: u64, tbits: u32, signed: bool) -> (bool, u128) {
+    let neg = bits >> 63 == 1;
+    let e = ((bits >> 52) & 0x7ff) as i32;
+    let m = bits & ((1u64 << 52) - 1);
+    let (max_pos, max_neg): (u128, u128) = if signed {
+        ((1u128 << (tbits - 1)) - 1, 1u128 << (tbits - 1))
+    } else {
+        (if tbits == 128 { u128::MAX } else { (1u128 << tbits) - 1 }, 0)
+    };
+    if e == 0x7ff {
+        if m != 0 {
+            return (false, 0);
+        }
+        return if neg { (max_neg != 0, max_neg) } else { (false, max_pos) };
+    }
+    if e < 1023 {
+        return (false, 0);
+    }
+    let full = (1u128 << 52) | m as u128;
+    let exp = e - 1023; // value in [2^exp, 2^(exp+1))
+    let over = exp >= 128;
+    let mag: u128 = if over {
+        u128::MAX
+    } else if exp >= 52 {
+        full << (exp - 52)
+    } else {
+        full >> (52 - exp)
+    };
+    if neg {
+        let r = if over || mag > max_neg { max_neg } else { mag };
+        (r != 0, r)
+    } else {
+        let r = if over || mag > max_pos { max_pos } else { mag };
+        (false, r)
+    }
+}
